@@ -708,6 +708,90 @@ def matrix_cases(g):
     return out
 
 
+INT_BOUNDS = [0, 1, 127, 128, 255, 256, (1 << 31) - 1, 1 << 31, (1 << 32) - 1, 1 << 32, (1 << 32) + 1, (1 << 63) - 1, 1 << 63,
+              (1 << 64) - 1, 1 << 64, (1 << 64) + 1, (1 << 72) + 5, -1, -(1 << 31), -(1 << 63), -(1 << 64)]
+
+
+def matrix2_cases(g):
+    """deterministic boundary sweep: every integer-taking opcode x INT_BOUNDS (canonical encodings) x {ordinary coin,
+    ephemeral coin} ; message lengths at the 1024 limit ; every CREATE_COIN hint length class ; all 64 message modes
+    with a matching counterpart.  Both visitors, alternating; lenient flags (strict variants: matrix_cases)."""
+    r = g.r
+    out = []
+
+    def emit(spends, tags, visitor, flags=0x10000):
+        keys = [k for s in spends for k in s["keys"]]
+        out.append({"tree": g.bundle_tree(spends), "flags": flags, "visitor": visitor, "max_cost": 11000000000, "clvm_cost": 0,
+                    "tags": tags, "scenario": "matrix2", "keys": keys, "spends": spends, "std": True})
+
+    def fresh(ephemeral):
+        a = g.new_spend(parent=r.bytes(32), amount=1000)
+        a["budget"] = []
+        if not ephemeral:
+            return [a], a
+        cph = r.choice(g.phs)
+        g.add_raw(a, "CREATE_COIN", [cph, canon(10)])
+        t = g.new_spend(parent=a["id"], ph=cph, amount=10)
+        t["budget"] = []
+        return [a, t], t
+
+    n = 0
+    int_ops = [ln for (ln, _) in LOCKS] + ["RESERVE_FEE", "ASSERT_MY_AMOUNT", "SOFTFORK", "CREATE_COIN"]
+    for name in int_ops:
+        for v in INT_BOUNDS:
+            for eph in (False, True):
+                spends, t = fresh(eph)
+                if name == "CREATE_COIN":
+                    args = [r.choice(g.phs), canon(v)]
+                else:
+                    args = [canon(v)]
+                g.add_raw(t, name, args)
+                n += 1
+                emit(spends, [(name, "int:%d:%s" % (v.bit_length() * (1 if v >= 0 else -1), "eph" if eph else "std"))], n & 1,
+                     0x10000 | (0x800000 if n & 2 else 0))
+    # message / announcement length limit
+    for name in ("CREATE_COIN_ANNOUNCEMENT", "CREATE_PUZZLE_ANNOUNCEMENT", "SEND_MESSAGE", "RECEIVE_MESSAGE", "AGG_SIG_ME", "AGG_SIG_UNSAFE", "REMARK"):
+        for ln in (0, 1, 32, 1023, 1024, 1025, 2048):
+            spends, t = fresh(False)
+            msg = bytes([0x61]) * ln
+            if name == "SEND_MESSAGE":
+                g.add_raw(t, "RECEIVE_MESSAGE", [canon(0), msg]); args = [canon(0), msg]
+            elif name == "RECEIVE_MESSAGE":
+                g.add_raw(t, "SEND_MESSAGE", [canon(0), msg]); args = [canon(0), msg]
+            elif name.startswith("AGG_SIG"):
+                pk = g.key(); t["keys"].append(pk); args = [pk, msg]
+            else:
+                args = [msg]
+            g.add_raw(t, name, args)
+            n += 1
+            emit(spends, [(name, "len:%d" % ln)], n & 1, 0x10000 | (0x800000 if n & 2 else 0))
+    # CREATE_COIN hint shapes
+    hints = [b"", b"\x00", r.bytes(1), r.bytes(31), r.bytes(32), r.bytes(33), r.bytes(64)]
+    for h in hints:
+        for tail in ([], [b"memo"], [(b"a", b"b")]):
+            for term in (b"", b"\x01"):
+                spends, t = fresh(False)
+                g.add_raw(t, "CREATE_COIN", [r.choice(g.phs), canon(7), to_list([h] + tail, term)])
+                n += 1
+                emit(spends, [("CREATE_COIN", "hint:%d:%d:%d" % (len(h), len(tail), len(term)))], n & 1)
+    for memo in (b"", b"\x01", r.bytes(32), (r.bytes(32), b""), ((b"a", b"b"), b""), (b"", r.bytes(32))):
+        spends, t = fresh(False)
+        g.add_raw(t, "CREATE_COIN", [r.choice(g.phs), canon(7), memo])
+        n += 1
+        emit(spends, [("CREATE_COIN", "memo-shape:%d" % n)], n & 1)
+    # all 64 message modes, sender and receiver being two different spends, matching and one-bit-off
+    for mode in range(64):
+        for ok in (True, False):
+            a, b = g.new_spend(parent=r.bytes(32), amount=1000), g.new_spend(parent=r.bytes(32), amount=2001)
+            a["budget"] = []; b["budget"] = []
+            msg = b"m%d" % mode
+            a["conds"].append(g.msg_cond("SEND_MESSAGE", mode, msg, a, b)); a["tags"].append(("SEND_MESSAGE", "mode"))
+            b["conds"].append(g.msg_cond("RECEIVE_MESSAGE", mode if ok else mode ^ 1, msg, b, a)); b["tags"].append(("RECEIVE_MESSAGE", "mode"))
+            n += 1
+            emit([a, b], [("SEND_MESSAGE", "mode:%d:%d" % (mode, ok))], n & 1, 0x10000 | (0x800000 if n & 2 else 0))
+    return out
+
+
 def case_line(c, consts_hex, valid_keys):
     keys = b"".join(k for k in dict.fromkeys(c["keys"]) if k in valid_keys)
     return "cond.parse %d %d %d %d %s %s %s" % (c["flags"], c["visitor"], c["max_cost"], c["clvm_cost"], consts_hex,
